@@ -265,7 +265,7 @@ def check_generic(pid, tier, igns, modes=('keygen', 'std', 'safe'), pvals=None, 
     rep = common.Report(pid, tier)
     work = common.scratch('key')
     rng = random.Random(common.seed() + int(pid[1:]))
-    CALL_CAP[0] = 600 if tier == 'thorough' else 300
+    CALL_CAP[0] = 300
     consts = base_consts(tier, igns, pvals=pvals, po=po)
     mcs = []
     pc = pair_consts(tier, consts)
@@ -309,7 +309,7 @@ def extra_for_C01(rep, tier):
     Returns a coverage dict."""
     work = common.scratch('key01')
     rng = random.Random(common.seed() + 1)
-    CALL_CAP[0] = 400 if tier == 'thorough' else 300
+    CALL_CAP[0] = 300
     # (no ignore specification: the stub's value depends on every argument it receives)
     consts = base_consts(tier, {0}, pvals={1, 2, 3, 4, 5, 7} if tier == 'thorough' else {1, 2, 3})
     groups, cat_states = tlc_catalogue(consts, work)
